@@ -303,3 +303,65 @@ func VerifC11Prec(nops int, twin int) {
 		vFail("C11: fully parenthesised expression parses to a different tree")
 	}
 }
+
+// ---- two definitions in one source -------------------------------------------------------------------
+// Whether a transform or predicate is well typed is a property of that definition alone. The relational
+// check needs no typing oracle: a source holding two definitions (which use the same variable names) is
+// accepted exactly when each definition is accepted in a source of its own, in both orders.
+
+var c12PairExprs = []string{"'s'", "1", "true", "v", "v + 1", "head v", "v and true", "not v"}
+var c12PairFirst = []string{"set v to % return 'x'", "loop set v to % break end return 'x'", "set w to % set v to w return 'x'", "if true then set v to % end return 'x'"}
+var c12PairSecond = []string{"return %", "set v to % return %", "if % then return 'a' end return %", "set w to v return %"}
+
+func VerifC12PairCount() int { return len(c12PairFirst) * len(c12PairSecond) }
+
+func c12Fill(sk string) string {
+	body := ""
+	for i := 0; i < len(sk); i++ {
+		if sk[i] == '%' {
+			body += c12PairExprs[vPick("expr", len(c12PairExprs))]
+		} else {
+			body += string(sk[i])
+		}
+	}
+	return body
+}
+
+func c12Accepts(src string) bool {
+	_, err := Compile(src)
+	return err == nil
+}
+
+func VerifC12Pair(job int) {
+	b1 := c12Fill(c12PairFirst[job/len(c12PairSecond)])
+	b2 := c12Fill(c12PairSecond[job%len(c12PairSecond)])
+	d1 := "set f to transform " + b1 + " end "
+	d2 := "set g to transform " + b2 + " end "
+	use2 := "replace all any with g"
+	if vBool("second definition is a predicate") {
+		d2 = "set g to pattern any begin " + b2 + " end "
+		use2 = "find all g"
+	}
+	alone1 := d1 + "replace all any with f"
+	alone2 := d2 + use2
+	both12 := d1 + d2 + "replace all any with f " + use2
+	both21 := d2 + d1 + use2 + " replace all any with f"
+	vNote("source", both12)
+	ok1, ok2 := c12Accepts(alone1), c12Accepts(alone2)
+	for _, both := range []string{both12, both21} {
+		if c12Accepts(both) != (ok1 && ok2) {
+			vNote("source", both)
+			vNote("first alone", alone1)
+			vNote("second alone", alone2)
+			if ok1 && ok2 {
+				vFail("C12: well-typed process code is rejected when another definition precedes or follows it")
+			}
+			vFail("C12: ill-typed process code is accepted when another definition precedes or follows it")
+		}
+	}
+	if ok1 && ok2 {
+		v, _ := Compile(both12)
+		v.Run("a1")
+		vReach("accepted-and-run")
+	}
+}
